@@ -265,7 +265,7 @@ func (t *Tool) Ptr(id, a int64) *Inner {
 	if t.enter("Ptr", id, a) == "nilptr" {
 		return nil
 	}
-	return &Inner{X: a, S: "p"}
+	return &Inner{X: a, N: int32(a%7) + 1, S: "p"}
 }
 
 // Idx0 returns a valid index (0) or one that is out of range.
